@@ -48,6 +48,10 @@ func gangHistory(c *Ctx, d *coreDrv) {
 		if c.chance(0.45) {
 			deny = append(deny, fmt.Sprintf("r%d|n%d", i, 1+c.pick(3)))
 		}
+		if c.chance(0.25) {
+			// refused only in allocate mode (a reservation check on that node passes)
+			deny = append(deny, fmt.Sprintf("r%d|n%d|a", i, 1+c.pick(3)))
+		}
 	}
 	d.apply(map[string]interface{}{"op": "reset", "config": fmt.Sprintf(gangConfig, 1, 6+c.pick(8)), "deny": strings.Join(deny, " ")})
 	if d.s == nil {
